@@ -309,4 +309,69 @@ theorem infoLoop_none (key : Str) (l : List Feat) (h : ∀ g ∈ l, cmpCI g.key 
     · rfl
     · exact ih (fun a ha => h a (List.mem_cons_of_mem _ ha))
 
+/-! ### line numbers: the C feature list is ordered newest line first -/
+
+/-- features carry the number of the line they were read from, newest first -/
+def LinesDescending (n : Int) (l : List Feat) : Prop :=
+  l.Pairwise (fun a b => b.line ≤ a.line) ∧ ∀ f ∈ l, 1 ≤ f.line ∧ f.line < n
+
+theorem tableAddFeature_lines (s s' : AState) (k v : Str) (n : Int) (hn : 1 ≤ n)
+    (h : tableAddFeature s k v n = some s') (hs : LinesDescending n s.feats) :
+    LinesDescending (n + 1) s'.feats := by
+  have hcons : ∀ (f : Feat) (l : List Feat), f.line = n → LinesDescending n l → LinesDescending (n + 1) (f :: l) := by
+    intro f l hf ⟨hp, hall⟩
+    refine ⟨List.pairwise_cons.2 ⟨fun b hb => by have := hall b hb; omega, hp⟩, ?_⟩
+    intro g hg
+    rcases List.mem_cons.1 hg with hg | hg
+    · subst hg; omega
+    · have := hall g hg; omega
+  have hcons2 : ∀ (f g : Feat) (l : List Feat), f.line = n → g.line = n → LinesDescending n l →
+      LinesDescending (n + 1) (f :: g :: l) := by
+    intro f g l hf hg ⟨hp, hall⟩
+    refine ⟨List.pairwise_cons.2 ⟨fun b hb => ?_, List.pairwise_cons.2 ⟨fun b hb => by have := hall b hb; omega, hp⟩⟩, ?_⟩
+    · rcases List.mem_cons.1 hb with hb | hb
+      · subst hb; omega
+      · have := hall b hb; omega
+    · intro a ha
+      rcases List.mem_cons.1 ha with ha | ha
+      · subst ha; omega
+      · rcases List.mem_cons.1 ha with ha | ha
+        · subst ha; omega
+        · have := hall a ha; omega
+  unfold tableAddFeature at h
+  split at h
+  · split at h
+    · cases h
+    · split at h
+      · injection h with h; subst h; exact hcons2 _ _ _ rfl rfl hs
+      · split at h
+        · injection h with h; subst h; exact hcons _ _ rfl hs
+        · split at h
+          · injection h with h; subst h; exact hcons _ _ rfl hs
+          · injection h with h; subst h; exact hcons _ _ rfl hs
+  · injection h with h; subst h; exact hcons _ _ rfl hs
+
+theorem LinesDescending.mono {n m : Int} {l : List Feat} (h : LinesDescending n l) (hnm : n ≤ m) :
+    LinesDescending m l :=
+  ⟨h.1, fun f hf => by have := h.2 f hf; omega⟩
+
+/-- every feature `analyzeTable` collects (before the defaults) has the number of its line;
+    the list is ordered by non-increasing line number: an earlier line of the file is
+    FURTHER in the list and has the SMALLER number -/
+theorem analyzeLines_lines (activeOnly : Bool) (ls : List (List Nat)) (n : Int) (hn : 1 ≤ n) (s s' : AState)
+    (h : analyzeLines activeOnly ls n s = .done s') (hs : LinesDescending n s.feats) :
+    ∃ m, LinesDescending m s'.feats := by
+  induction ls generalizing n s with
+  | nil => simp [analyzeLines] at h; subst h; exact ⟨n, hs⟩
+  | cons l ls ih =>
+    rw [analyzeLines] at h
+    split at h
+    · exact ih (n + 1) (by omega) s h (hs.mono (by omega))
+    · injection h with h; subst h; exact ⟨n, hs⟩
+    · cases h
+    · split at h
+      · cases h
+      · rename_i s1 hadd
+        exact ih (n + 1) (by omega) s1 h (tableAddFeature_lines s s1 _ _ n hn hadd hs)
+
 end Lou.Meta
